@@ -2477,7 +2477,7 @@ pub fn rule_text(prop: &str) -> String {
     match prop {
         "C01" => "zoo types (random modules through the real front end + rustc, large-size family, edges, sets, hostile, protobuf edge, compat) x boundary-biased values injected through the Injector: write -> read through UperReader<SpyBits>: value equal (PartialEq and abstract Val via the Extractor), bits consumed == bits written, no read beyond the declared length, writer buffer == ceil(bits/8) with zero padding; histories of k in {2,3,5,8} values of random types written into one writer and read back in order with position == writer boundary. distinct = distinct (type, encoding) with bit_len > 0 and a non-leaf value, plus distinct histories".to_string(),
         "C02" => "profile values of the zoo types: writer bits == R-PER(schema, value) bit for bit, reader(R-PER bits) == value and consumes exactly them; reference self-test decode(encode(v)) == v on every case; class-complete coverage floor over the constraint classes of DESIGN.md section 4. distinct = distinct (type, value) with a non-empty encoding and a non-leaf value".to_string(),
-        "C03" => "bounded-exhaustive, seed-independent: every SEQUENCE/SET shape with n <= N components (N = 3 quick, 5 thorough) x {mandatory, OPTIONAL, DEFAULT}^n x extension marker {none, after component i} x all 2^k presence patterns (DEFAULT: default and non-default value); preamble derived from the property statement and compared bit by bit (extension bit, one presence bit per OPTIONAL/DEFAULT root component in order), total length, whole encoding vs R-PER, decode of own bits, decode of the reference bits of every pattern (incl. first addition absent / later present); refusal only as ExtensionFieldsInconsistent for exactly that pattern. distinct = distinct (shape, pattern)".to_string(),
+        "C03" => "bounded-exhaustive, seed-independent: every SEQUENCE/SET shape with n <= N components (N = 3 quick, 5 thorough) x {mandatory, OPTIONAL, DEFAULT}^n x extension marker {none, after component i} x all 2^k presence patterns (DEFAULT: default and non-default value); preamble derived from the property statement and compared bit by bit (extension bit, one presence bit per OPTIONAL/DEFAULT root component in order), total length, whole encoding vs R-PER, decode of own bits, decode of the reference bits of every pattern (incl. first addition absent / later present); refusal only as ExtensionFieldsInconsistent for exactly that pattern; plus, below the generated code, hand-written sequence::Constraints whose additions are mandatory (not Option-wrapped, which the compilers never emit): root {M,O}^1..3 x additions {M,O}^1..3 x every presence pattern written through Writer::write_sequence and compared bit for bit with the preamble rule, refusal demanded exactly when the first addition is absent and a later one present (histogram scope-api). distinct = distinct (shape, pattern)".to_string(),
         "C05" => "schema pairs (V1, V2 = V1 + k extension additions / alternatives / enumeration items; additions of 1, 2, 63, 64, 127, 128, 129, 300 octets, OPTIONAL and mandatory, nested extensible), also nested as list element and non-last component; values of either version written with one version followed by a sentinel, read with the other: abstract value == R-PER decoder of the other version, reader position == message end, sentinel intact; unknown CHOICE/ENUMERATED extensions may fail but never yield a value. distinct = distinct (direction, pair, encoding)".to_string(),
         "C06" => "every constrained leaf of generated values (zoo types incl. a dedicated edge family: single-value ranges, negative ranges, fixed/extensible/range sizes of every string and list kind): one violation at a time - INTEGER lb-1, ub+1, +-2^31; SIZE lb-1, 0, ub+1, 2ub; one illegal character at first/middle/last position per alphabet; only values the generated Rust type can hold (Injector->Extractor identity). Non-extensible => Err(ValueNotInRange|SizeNotInRange|InvalidString|InvalidChoiceIndex), Ok is a violation (replay says what the bits decode to); extensible => Ok, round trip, bits == R-PER. CHOICE/ENUMERATED indices through hand-written adversarial descriptor types. distinct = distinct (type, violating value, violated constraint)".to_string(),
         "C04" => "every zoo type x inputs: 1/4 random byte strings (0..64 octets, sparse/dense, declared length in {0,1,7,8,8n-1,8n,random}) and 3/4 valid encodings of boundary values with 1..3 faults from {truncate, bit flip, insert/delete octet, length-determinant patterns 7F/BFFF/C4/FF/C1/8000.. at early positions, garbage behind the declared end, unaligned runs of ones/zeros, splice, shift by 1..7 bits}; UperReader<SpyBits>::read::<T> under the panic journal, the counting allocator (largest request and peak live <= 64 MiB + 4096 x input octets; for types with a list whose elements may be zero bits wide - SEQUENCE OF NULL, of a single-value INTEGER ... - 64 MiB per input octet, because up to 64K such elements per length octet are legitimate) and a forked child with watchdog and RLIMIT_AS (abort, hang); Ok => no read ended beyond the declared length and pos <= declared length; after every outcome bits_remaining()/pos()/len()/remaining() are called: no panic and pos + remaining == len; the same inputs (protobuf encodings with faults, whole octets) through ProtobufReader; the DER reader's number/boolean/raw primitives on all inputs of <= 2 octets and random longer ones. distinct = distinct (type, outcome kind, bits consumed)".to_string(),
